@@ -10,8 +10,8 @@ LEVEL = "proof" if _os.path.exists(_os.path.join(C.COQ, "theories", "Props", "C0
 BACKEND = "inplace"
 DUMP = None
 PROPS_FILE = "C04.v"
-COUNTS_QUICK = {"longrun": 40, "uniform": 500, "macro": 250, "pressure": 40, "affine": 150, "bigconst": 20, "roam": 60, "diverge": 30}
-COUNTS_THOROUGH = {"longrun": 400, "uniform": 20000, "macro": 6000, "pressure": 500, "affine": 3000, "bigconst": 200, "roam": 800, "diverge": 300}
+COUNTS_QUICK = {"deepnest": 24, "longrun": 40, "uniform": 500, "macro": 250, "pressure": 40, "affine": 150, "bigconst": 20, "roam": 60, "diverge": 30}
+COUNTS_THOROUGH = {"deepnest": 200, "longrun": 400, "uniform": 20000, "macro": 6000, "pressure": 500, "affine": 3000, "bigconst": 200, "roam": 800, "diverge": 300}
 LEVELS_QUICK = [0]
 LEVELS_THOROUGH = [0]
 PROFILES = ("debug", "release")
